@@ -65,7 +65,8 @@ def materialise(layout, pool, sims, work):
         if kind == 'json':
             p = base + '.json'
             with open(p, 'w') as f:
-                json.dump(recs, f)
+                # a file holding a single simulation may be the bare record
+                json.dump(recs[0] if (len(recs) == 1 and ci % 2 == 0) else recs, f)
             paths.append(p)
         elif kind == 'gz':
             p = base + '.json.gz'
@@ -91,7 +92,7 @@ def materialise(layout, pool, sims, work):
             for j, r in enumerate(recs):
                 pp = os.path.join(tmpd, f'p{j}.json')
                 with open(pp, 'w') as f:
-                    json.dump([r], f)
+                    json.dump(r if j % 2 == 0 else [r], f)     # bare record / list of records
                 parts.append(pp)
             p = base + '-merged.json.gz'
             res = CliRunner().invoke(cli, ['merge-results', '-o', p] + parts)
